@@ -134,7 +134,7 @@ fn near_boundary(i: &BigInt) -> bool {
     pts.iter().any(|p| (i - p).magnitude() <= &num_bigint::BigUint::from(2u8))
 }
 
-pub const PROBES: [&str; 23] = [
+pub const PROBES: [&str; 24] = [
     "output_lovelace",
     "output_token",
     "mint",
@@ -158,6 +158,7 @@ pub const PROBES: [&str; 23] = [
     "metadata_from_slot_to_time_plus_parameter",
     "token_terms_subtracted_from_a_value_without_them",
     "lovelace_terms_subtracted_from_nothing",
+    "datum_integer_picked_by_index",
 ];
 
 pub fn boundary_values() -> Vec<BigInt> {
@@ -238,6 +239,12 @@ pub fn probe(kind: usize, x: &BigInt, y: &BigInt) -> Case {
             Box::new(GExpr::Sub(Box::new(GExpr::Asset(0, Box::new(GExpr::Int(5)))), Box::new(GExpr::Ada(px())))),
             Box::new(GExpr::Ada(py())),
         ))),
+        // an index is an integer like any other: one that no list position holds must not be cut down to one that does
+        "datum_integer_picked_by_index" => {
+            let mut o = base_out(two_ada.clone());
+            o.datum = Some(GExpr::Index(Box::new(GExpr::List(vec![GExpr::Int(11), GExpr::Int(22), GExpr::Int(33)])), px()));
+            tx.outputs.push(o);
+        }
         "metadata_value" => {
             tx.metadata = Some(vec![(GExpr::Int(7), GExpr::Param(0))]);
             tx.outputs.push(base_out(two_ada.clone()));
